@@ -32,11 +32,11 @@ def gen_encoded_header(workdir):
     open(os.path.join(d, 'fft4g_cache_enc.h'), 'w').write(src)
 
 
-def cache_obl(threads, calls, kf=None, timeout=900, tiers=('quick', 'thorough'), len4=0):
-    return Obl(name='fftcache_t%d_c%d%s%s' % (threads, calls, '_lazyinit' if kf else '', '_len4' if len4 else ''), src='c17_cache.c',
-               defs=['-DVF_THREADS=%d' % threads, '-DVF_CALLS=%d' % calls] + (['-DVF_LEN4'] if len4 else []), ccflags=['-I' + os.path.join(runner.HARNESS, 'include', 'omp_model')],
+def cache_obl(threads, calls, kf=None, timeout=900, tiers=('quick', 'thorough'), len4=0, warm=0):
+    return Obl(name='fftcache_t%d_c%d%s%s%s' % (threads, calls, '_lazyinit' if kf else '', '_len4' if len4 else '', '_warm%d' % warm if warm else ''), src='c17_cache.c',
+               defs=['-DVF_THREADS=%d' % threads, '-DVF_CALLS=%d' % calls] + (['-DVF_LEN4'] if len4 else []) + (['-DVF_WARM=%d' % warm] if warm else []), ccflags=['-I' + os.path.join(runner.HARNESS, 'include', 'omp_model')],
                unwind=max(calls, threads) + 2, checks='none', slice=False, extra=['--sat-solver', 'cadical'], timeout=timeout, tiers=tiers, kf=kf, native=False, ndebug=False, mem_gb=24,
-               desc='%d threads x %d lsx_safe_rdft calls, all interleavings%s' % (threads, calls, ' (probe of the known finding: first use inside the threads)' if kf else ''),
+               desc='%d threads x %d lsx_safe_rdft calls, all interleavings%s%s' % (threads, calls, ' (probe of the known finding: first use inside the threads)' if kf else '', ', cache already filled for length %d by an earlier transform' % warm if warm else ''),
                bounds='%d threads, %d calls each, lengths in {8,16,32%s}; sequential consistency' % (threads, calls, ',64' if len4 else ''),
                stubs=['omp locks: harness/include/omp_model/omp.h + c17_cache.c', 'realloc/free/atexit and the transform lsx_rdft: event models'],
                funcs=['fft4g_cache.h:update_fft_cache', 'fft4g_cache.h:done_with_fft_cache', 'fft4g_cache.h:lsx_init_fft_cache',
@@ -49,7 +49,7 @@ def prepare(workdir):
 
 
 def obligations(tier):
-    obls = [cache_obl(2, 1), cache_obl(2, 1, kf='KF_C17_LAZY_INIT')]
+    obls = [cache_obl(2, 1), cache_obl(2, 1, kf='KF_C17_LAZY_INIT'), cache_obl(2, 1, warm=16), cache_obl(3, 1, warm=32)]      # warm: cache filled by an earlier transform, so concurrent readers (and reader -> writer upgrades) occur
     if tier == 'thorough':
         obls += [cache_obl(2, 1, timeout=2400, len4=1)]
     return obls
